@@ -66,6 +66,12 @@ fn cycle_piece() -> BoxedStrategy<Vec<Op>> {
             Op::HClose { slot: 3 },
             Op::RemoveStream { p: raw("/hcyc") },
         ]),
+        // small stream, reopened and overwritten from offset 0 with a large write, removed
+        2 => (sz(), proptest::sample::select(vec![4096u32, 4097, 5000, 8192, 9000]), any::<u8>()).prop_map(|(small, large, seed)| vec![
+            Op::CreateStream { p: raw("/ow"), data: DataSpec { len: 1 + small % 4000, seed } },
+            Op::Overwrite { p: raw("/ow"), frac: 0, data: DataSpec { len: large, seed: seed.wrapping_add(1) } },
+            Op::RemoveStream { p: raw("/ow") },
+        ]),
         // truncate to zero and refill
         1 => (any::<u16>(), d()).prop_map(|(_idx, data)| vec![
             Op::CreateStream { p: raw("/refill"), data },
